@@ -4,7 +4,7 @@
     [sreach] strong reachability.  [order_complete h]: the heap walk meets every object.  The premise
     [gc ... = Some _] says the model's fuel sufficed (None = out of fuel). *)
 From Coq Require Import ZArith List Bool PArith FMapPositive.
-From ChibiV Require Import C16.Model C16.Spec C16.Proofs C16.GcProofs C16.FdProofs C16.FdSafety C16.History C16.HistProofs C16.FdOnce C16.Fuel C16.Examples C16.LayoutCheck Gen.C16_Layout.
+From ChibiV Require Import C16.Model C16.Spec C16.Proofs C16.GcProofs C16.FdProofs C16.FdSafety C16.History C16.HistProofs C16.FdOnce C16.Fuel C16.Examples C16.LayoutCheck C16.ScanOrder Gen.C16_Layout.
 Import ListNotations.
 
 (** the mark phase + ephemeron fixpoint mark exactly the SPEC's live set *)
@@ -164,7 +164,13 @@ Print Assumptions history_fd_closed_by_first_collection.
 
 (** released at most once, over all interleavings of explicit close and gc: the log of close() calls of any
     history has no duplicates (descriptors are named by instance); a descriptor whose owner (fileno object or
-    stream port) is still open and closable has not been closed; every descriptor has a single owner *)
+    stream port) is still open and closable has not been closed; every descriptor has a single owner.
+    The histories (coq/C16/History.v [op]) contain every explicit way of closing: close-port / close-input-port /
+    close-output-port on stream ports and on ports over (shared, counted) filenos [OClose], close-file-descriptor on a
+    fileno object [OCloseFd], and the ways of making further descriptors: open, open-pipe [OFileno], ports on filenos
+    [OPortOn], duplicate-file-descriptor [ODup], duplicate-file-descriptor-to / renumber-file-descriptor [ODupTo].
+    [run .. = Some _] excludes, besides lack of fuel, only operations on the number of a fileno object that is already
+    closed (a second close by hand, dup of a closed fileno): see History.v [step]. *)
 Theorem history_fd_closed_at_most_once : forall ops n fl st,
   run ops (init n fl) = Some st ->
   NoDup (oslog st) /\
@@ -172,6 +178,13 @@ Theorem history_fd_closed_at_most_once : forall ops n fl st,
   (forall a b x, owns (objs (hp st)) a x -> owns (objs (hp st)) b x -> a = b).
 Proof. exact history_fd_closed_at_most_once_l. Qed.
 Print Assumptions history_fd_closed_at_most_once.
+
+(** F-C16-2: with close-file-descriptor as pinned before its fix (close(2) on the number, the fileno object left open:
+    [close_fd_pinned]) the same descriptor is closed twice: by hand and by the finaliser of the dropped object *)
+Theorem closed_once_refuted_for_pinned_close_file_descriptor :
+  exists st, run [ODrop 0; OGc] (close_fd_pinned 0 (open_fileno 0 (init 1 100))) = Some st /\ oslog st = [0; 0]%Z.
+Proof. exact closed_once_refuted_for_pinned_close_file_descriptor_l. Qed.
+Print Assumptions closed_once_refuted_for_pinned_close_file_descriptor.
 
 (** the premise [gc ... = Some _] is satisfiable for every heap: with fuel above (roots + one unit per object and per
     strong slot) and passes above the number of objects the model's collector always returns (this is the fuel the
@@ -203,3 +216,44 @@ Theorem layout_and_phase_order_as_modelled :
   gc_phases = [1; 2; 3; 4; 5]%Z.
 Proof. exact layout_as_modelled_l. Qed.
 Print Assumptions layout_and_phase_order_as_modelled.
+
+(** (G) the control skeleton of sexp_mark_weak_extras read from gc.c on every run is the one [eph_loop] mirrors: walk all
+    heaps by increasing address, repeat while a walk marked something; another pass is requested whenever sexp_mark
+    marked the value ([scan_rerun = [1]]: no condition on the value's address); nothing else in the function *)
+Theorem scan_skeleton_as_modelled :
+  scan_loop = 1%Z /\ scan_pieces = [1; 1; 1; 1; 1; 1]%Z /\ scan_rerun = [1]%Z /\ scan_nothing_else = 1%Z.
+Proof. exact scan_skeleton_as_modelled_l. Qed.
+Print Assumptions scan_skeleton_as_modelled.
+
+(** the scan, run in ANY order that meets every object (any address layout of the heap), marks exactly the least
+    fixpoint [live] *)
+Theorem scan_fixpoint_equals_least_fixpoint : forall fuel passes (os : objmap) (ord : list addr) roots m,
+  (forall a, isobj os a -> In a ord) ->
+  marks fuel passes (mkHeap os ord) roots = Some m ->
+  forall a, mem a m = true <-> live os roots a.
+Proof. exact scan_fixpoint_equals_least_fixpoint_l. Qed.
+Print Assumptions scan_fixpoint_equals_least_fixpoint.
+
+(** hence the outcome does not depend on the address layout *)
+Theorem scan_order_irrelevant : forall f1 p1 f2 p2 (os : objmap) ord1 ord2 roots m1 m2,
+  (forall a, isobj os a -> In a ord1) -> (forall a, isobj os a -> In a ord2) ->
+  marks f1 p1 (mkHeap os ord1) roots = Some m1 -> marks f2 p2 (mkHeap os ord2) roots = Some m2 ->
+  forall a, mem a m1 = mem a m2.
+Proof. exact scan_order_irrelevant_l. Qed.
+Print Assumptions scan_order_irrelevant.
+
+(** whereas requesting another pass only when the newly marked value lies below the scan pointer ([marks_opt]) is
+    wrong: on the witness heap (dependent ephemeron below the ephemeron whose value, above it, reaches its key) a
+    live object stays unmarked, while the scan as written marks it *)
+Theorem scan_below_pointer_optimisation_refuted :
+  exists m, marks_opt 100 100 (mkHeap w_objs w_ord) w_roots = Some m /\
+            live w_objs w_roots 6%positive /\ mem 6%positive m = false /\
+            (forall m', marks 100 100 (mkHeap w_objs w_ord) w_roots = Some m' -> mem 6%positive m' = true).
+Proof. exact scan_below_pointer_optimisation_refuted_l. Qed.
+Print Assumptions scan_below_pointer_optimisation_refuted.
+
+(** (G) lib/chibi/filesystem.stub: close-file-descriptor on a fileno object marks the object closed before closing
+    the descriptor, which is what [OCloseFd] of History.v mirrors *)
+Theorem close_file_descriptor_marks_fileno_closed : close_fd_marks_fileno_closed = 1%Z.
+Proof. exact close_fd_as_modelled_l. Qed.
+Print Assumptions close_file_descriptor_marks_fileno_closed.
